@@ -724,6 +724,10 @@ func checkU23(c *Ctx, p *Prog, fn *ssa.Function) {
 					}
 				}
 			}
+			// the test's answer handed back as the body's answer (return IsPrioritiesFilled(combination, distribution))
+			if ret.Results[0] == ssa.Value(zt) {
+				okFalse = true
+			}
 		}
 		if !okFalse {
 			p3 = append(p3, "a failed zero-share test does not make the predicate false")
